@@ -113,6 +113,16 @@ func main() {
 	weights := dbh.DefaultWeights()
 	plainHooks := dbh.Hooks{CheckEvery: 1}
 	if a.Replay != "" {
+		if handled, fail := replayBatch(a.Replay); handled {
+			res.Eval("replay-batch", true)
+			if fail != "" {
+				fmt.Println("replay fails:", fail)
+				res.Violate("batch: "+fail, map[string]string{"replay_of": a.Replay})
+			} else {
+				fmt.Println("replay passes")
+			}
+			return
+		}
 		p, err := dbh.LoadProgram(a.Replay)
 		if err != nil {
 			fmt.Println("cannot load replay:", err)
@@ -137,6 +147,13 @@ func main() {
 	if strings.Contains(a.Extra, "search") && !a.Thorough() {
 		nprog *= 4
 	}
+	// the batch codec / memdb-insertion part (batch.go) runs beside the DB programs
+	var xcases []string
+	xdone := make(chan struct{})
+	go func() {
+		defer close(xdone)
+		xcases = runBatchPart(a.Seed, a.Thorough(), strings.Contains(a.Extra, "search"), res)
+	}()
 	root := vlib.NewRNG(a.Seed)
 	type job struct {
 		i int
@@ -251,4 +268,6 @@ func main() {
 		}
 	}
 	writeByteCases(res, a.Out, bcases)
+	<-xdone
+	writeBatchCases(res, a.Out, xcases)
 }
